@@ -15,3 +15,6 @@ open Bpmn.Props.C15
 #print axioms current_type_attr_agrees
 #print axioms current_xsi_dichotomy
 #print axioms current_informal_roundtrip
+#print axioms C15_counterexample_value_field
+#print axioms mini2_roundtrip_by_value
+#print axioms current_value_fields_dichotomy
